@@ -81,6 +81,9 @@ func vGenBSIAt(nv, w, colOff int) (*BSI, *bModel) {
 	var b *BSI
 	if vsym.Param("fixed") == 1 {
 		b = NewBSI(int64(1)<<uint(w-1)-1, -(int64(1) << uint(w-1)))
+	} else if vsym.Param("fixed") == 2 {
+		// the widest fixed index: 64 value planes + sign, wider than the 64-plane fast paths
+		b = NewBSI(9223372036854775807, -9223372036854775808)
 	} else {
 		b = NewDefaultBSI()
 	}
